@@ -38,12 +38,12 @@ ASSUMPTIONS = ['vt/ref/exact.py (Sturm counting); the independent sweep uses 102
 TIERS = {
     'quick': {'shards': 14, 'random': 4500, 'timeout': 900, 'min_cases': 2500, 'max_timeouts': 10,
               'require_branches': ['O1:expectation-checked', 'O2:exact-count-checked', 'O2:count>=2', 'pair:Arc-CubicBezier',
-                                   'pair:CubicBezier-CubicBezier', 'arc:sweep=False', 'cfg:axis-aligned', 'cfg:ellipse-axis-line', 'cfg:paths',
+                                   'pair:CubicBezier-CubicBezier', 'arc:sweep=False', 'cfg:axis-aligned', 'cfg:ellipse-axis-line', 'cfg:straight-curve', 'cfg:paths',
                                    'O2:inside-Path.intersect', 'O1:two-close-crossings-checked']},
     'thorough': {'shards': 14, 'random': 160000, 'timeout': 3400, 'min_cases': 80000, 'max_timeouts': 200,
                  'require_branches': ['O1:expectation-checked', 'O2:exact-count-checked', 'O2:count>=2',
                                       'pair:Arc-CubicBezier', 'pair:CubicBezier-CubicBezier', 'arc:sweep=False',
-                                      'cfg:axis-aligned', 'cfg:ellipse-axis-line', 'cfg:paths', 'O2:inside-Path.intersect',
+                                      'cfg:axis-aligned', 'cfg:ellipse-axis-line', 'cfg:straight-curve', 'cfg:paths', 'O2:inside-Path.intersect',
                                       'O1:two-close-crossings-checked']},
 }
 CASE_TIMEOUT = 20
@@ -191,6 +191,27 @@ def cases(ctx):
         cfg = rng.choice(['crossing', 'crossing', 'crossing', 'exact', 'exact', 'axis-aligned', 'paths', 'double'])
         if rng.random() < 0.06:
             cfg = 'ellipse-axis-line'
+        elif rng.random() < 0.06:
+            cfg = 'straight-curve'
+        if cfg == 'straight-curve':
+            # a straight "curve" (control points evenly spaced on the chord up to rounding: polylines stored as
+            # curves, degree-elevated lines) crossed by an oblique line: the second difference is a rounding residue
+            p0, p1 = gen.scaled_point(rng, scale), gen.scaled_point(rng, scale)
+            if p0 == p1:
+                continue
+            if rng.random() < 0.6:
+                sa = ['Q'] + [[z.real, z.imag] for z in (p0, (p0 + p1) / 2, p1)]
+            else:
+                sa = ['C'] + [[z.real, z.imag] for z in (p0, p0 + (p1 - p0) / 3, p0 + 2 * (p1 - p0) / 3, p1)]
+            x = p0 + (p1 - p0) * rng.uniform(0.1, 0.9)
+            d = (p1 - p0) / abs(p1 - p0) * cmath.exp(1j * rng.choice([-1, 1]) * rng.uniform(0.3, 1.5)) * abs(p1 - p0)
+            v = rng.uniform(0.15, 0.85)
+            q0, q1 = x - d * v, x + d * (1 - v)
+            sb = ['L', [q0.real, q0.imag], [q1.real, q1.imag]]
+            if rng.random() < 0.5:
+                sa, sb = sb, sa
+            yield {'kind': 'axis', 'a': sa, 'b': sb, 'cls': ['cfg:straight-curve']}
+            continue
         if cfg == 'ellipse-axis-line':
             # an exactly vertical or horizontal line through an unrotated (0 / 90 / 180 degrees) elliptical arc
             c = gen.scaled_point(rng, scale)
